@@ -771,4 +771,65 @@ theorem C15_ivector_training_equivariant (a b : Fin D → ℝ) (ha : ∀ d, a d 
     rw [hflat]
     obtain ⟨e1, e2⟩ := iv_eStep_aff a b ha m hsm parts.flatten
     exact iv_mStep_aff a b m _ _ floor e1 e2
+
+theorem eStep_snorm' (m : IV.Machine C D R ℝ) (l : List (IV.GStat C D ℝ)) (c : Fin C) (d : Fin D) :
+    (IV.eStep m l).snorm c d = (l.map fun st => (IV.contrib m st).snorm c d).sum := by
+  induction l with
+  | nil => simp [IV.eStep, IV.Stats.zero]
+  | cons x l ih => rw [eStep_cons]; simp [IV.Stats.add, ih]
+
+theorem iv_contrib_snorm_aff (a b : Fin D → ℝ) (m : IV.Machine C D R ℝ) (st : IV.GStat C D ℝ) (c : Fin C) (d : Fin D) :
+    (IV.contrib (affIV a b m) (affG a b st)).snorm c d = a d * a d * (IV.contrib m st).snorm c d := by
+  simp only [IV.contrib, affIV, affG]; ring
+
+theorem iv_eStep_snorm_aff (a b : Fin D → ℝ) (m : IV.Machine C D R ℝ) (l : List (IV.GStat C D ℝ)) (c : Fin C) (d : Fin D) :
+    (IV.eStep (affIV a b m) (l.map (affG a b))).snorm c d = a d * a d * (IV.eStep m l).snorm c d := by
+  rw [eStep_snorm', eStep_snorm', List.map_map, ← List.sum_map_mul_left]
+  congr 1
+  apply List.map_congr_left
+  intro st _
+  simp only [Function.comp_def, iv_contrib_snorm_aff]
+
+/-- **one i-vector M-step with covariance update is equivariant while the floor is inactive** on both
+sides (the scalar `variance_floor` is not a scale-free quantity: where it clamps, equivariance under a
+per-feature rescaling cannot hold) -/
+theorem C15_ivector_mstep_sigma_equivariant (a b : Fin D → ℝ) (m : IV.Machine C D R ℝ) (st st' : IV.Stats C D R ℝ) (floor : ℝ)
+    (h1 : st'.nsw2 = st.nsw2) (h2 : st'.fsw = fun c d t => a d * st.fsw c d t)
+    (h3 : st'.snorm = fun c d => a d * a d * st.snorm c d) (h4 : st'.nij = st.nij)
+    (hin : ∀ c d, ¬ ((if Transc.isZero (st.nij c) then m.sigma c d
+        else (st.snorm c d - sumFin R fun t => st.fsw c d t *
+          (if IV.anyNonzero (st.nsw2 c) then sumFin R fun u => LinAlg.inv R (fun x y => st.nsw2 c y x) t u * st.fsw c d u else 0)) / st.nij c) < floor))
+    (hin' : ∀ c d, ¬ (a d * a d * (if Transc.isZero (st.nij c) then m.sigma c d
+        else (st.snorm c d - sumFin R fun t => st.fsw c d t *
+          (if IV.anyNonzero (st.nsw2 c) then sumFin R fun u => LinAlg.inv R (fun x y => st.nsw2 c y x) t u * st.fsw c d u else 0)) / st.nij c) < floor)) :
+    IV.mStep (affIV a b m) st' true floor = affIV a b (IV.mStep m st true floor) := by
+  simp only [IV.mStep, h1, h2, h3, h4, affIV, IV.Machine.mk.injEq, true_and, if_true]
+  constructor
+  · funext c d t
+    split_ifs
+    · simp only [sumFin_eq, Finset.mul_sum]
+      exact Finset.sum_congr rfl fun u _ => by ring
+    · simp
+  · funext c d
+    have e : (if Transc.isZero (st.nij c) then a d * a d * m.sigma c d
+        else (a d * a d * st.snorm c d - sumFin R fun t => a d * st.fsw c d t *
+          (if IV.anyNonzero (st.nsw2 c) then sumFin R fun u => LinAlg.inv R (fun x y => st.nsw2 c y x) t u * (a d * st.fsw c d u) else 0)) / st.nij c)
+        = a d * a d * (if Transc.isZero (st.nij c) then m.sigma c d
+        else (st.snorm c d - sumFin R fun t => st.fsw c d t *
+          (if IV.anyNonzero (st.nsw2 c) then sumFin R fun u => LinAlg.inv R (fun x y => st.nsw2 c y x) t u * st.fsw c d u else 0)) / st.nij c) := by
+      split_ifs with hz hnz
+      · rfl
+      · simp only [sumFin_eq]
+        have hsum : (∑ t, a d * st.fsw c d t * ∑ u, LinAlg.inv R (fun x y => st.nsw2 c y x) t u * (a d * st.fsw c d u))
+            = a d * a d * ∑ t, st.fsw c d t * ∑ u, LinAlg.inv R (fun x y => st.nsw2 c y x) t u * st.fsw c d u := by
+          rw [Finset.mul_sum]
+          refine Finset.sum_congr rfl fun t _ => ?_
+          rw [Finset.mul_sum, Finset.mul_sum, Finset.mul_sum]
+          refine Finset.sum_congr rfl fun u _ => ?_
+          ring
+        rw [hsum]
+        ring
+      · simp only [sumFin_eq, mul_zero, Finset.sum_const_zero, sub_zero]
+        ring
+    rw [e, if_neg (hin' c d), if_neg (hin c d)]
 end IVAffine
